@@ -139,6 +139,10 @@ def template_def(rng, prof):
         tasks = [T("t1", [tr(["t2"], None, [["flag", lit(va)]])]), T("t2", [tr(["t3"], None, [["flag", lit(vb)]])]),
                  T("t3", input=[["f", ctx("flag")]])]
         feat = "tpl_typed_republish"
+    elif k == 14:  # two independent branches of different length, each publishing its own variable
+        tasks = [T("a1", [tr(["a2"], None, [["pa", lit(rng.randint(1, 50))]])]), T("a2"),
+                 T("b1", [tr(["b2"], None, [["pb", lit(rng.randint(1, 50))]])]), T("b2", [tr(["b3"])]), T("b3")]
+        feat = "tpl_two_leaves"
     else:         # two publish-only transitions and a noop ending
         tasks = [T("a", [tr(["b", "c"])]), T("b", [tr(["noop"], None, [["x", lit(1)]])]),
                  T("c", [tr(["continue"], None, [["v1", fn("result")]]), tr(["continue"], None, [["v2", lit(7)]])])]
@@ -147,6 +151,9 @@ def template_def(rng, prof):
          "output": [["o1", ctx("x")]], "tasks": tasks}
     if feat == "tpl_cleanup_fail":
         d["output"].append(["o2", ctx("n")])
+    if feat == "tpl_two_leaves":
+        d["vars"] += [["pa", lit(0)], ["pb", lit(0)]]
+        d["output"] += [["opa", ctx("pa")], ["opb", ctx("pb")]]
     if feat == "tpl_typed_republish":
         d["output"].append(["oflag", ctx("flag")])
     if feat == "tpl_failure_publish":
@@ -354,6 +361,9 @@ def gen_def(rng, prof):
     if rng.random() < prof.p_badexpr:
         bad = rng.choice([ctx("nope"), op("add", ctx("y_undefined"), lit(1)), ctx("__state"), {"ctxkey": "d", "k": "zz"}, op("div", lit(1), lit(0)),
                           {"item": "k"}, op("eq", ctx("nope2"), lit(1))])
+        if rng.random() < 0.25:
+            bad = rng.choice([{"rawbad": {"ctxkey": "d", "k": "zz"}},
+                              {"twobad": [{"ctxkey": "d", "k": "zz"}, {"ctxkey": "d", "k": "yy"}]}])
         t = rng.choice(tasks)
         where = rng.choice(prof.bad_where or ["input", "when", "publish", "items", "concurrency", "delay", "retry_when",
                                              "retry_count", "retry_delay", "output", "vars", "wfinput"])
